@@ -1164,6 +1164,27 @@ fn gen_votes(rng: &mut StdRng, n: usize, ops: &mut Vec<Value>) {
                 msgs.push(json!({"kind": "timeout", "from": from, "bad_sig": bad_sig, "signer": signer, "sig": !bad_sig, "a": t, "m": tvote_j(&t, nval)}));
             }
         }
+        // a third of the cases start with: validator i votes at `base`, validator j votes the same (keeps the partial
+        // certificate alive), i votes for a FUTURE view, then i's old vote for `base` arrives again (re-sent / reordered)
+        if rng.gen_range(0..3) == 0 && base < u64::MAX - 8 {
+            let i = rng.gen_range(0..nval);
+            let j = (i + 1 + rng.gen_range(0..nval - 1)) % nval;
+            let fut = base + rng.gen_range(1..6);
+            let commit = rng.gen::<bool>();
+            let mut pat = vec![];
+            for (from, v) in [(i, base), (j, base), (i, fut), (i, base)] {
+                let view = abs::AView { g: 0, e: 0, v };
+                if commit {
+                    let vote = abs::AVote { view, n: 1, h: 0 };
+                    pat.push(json!({"kind": "commit", "from": from, "bad_sig": false, "signer": from, "sig": true, "a": vote, "m": vote_j(&vote)}));
+                } else {
+                    let t = abs::ATVote { view, hv: None, hq: None };
+                    pat.push(json!({"kind": "timeout", "from": from, "bad_sig": false, "signer": from, "sig": true, "a": t, "m": tvote_j(&t, nval)}));
+                }
+            }
+            pat.extend(msgs);
+            msgs = pat;
+        }
         ops.push(json!({"op": "votes", "reset": true, "ctx": ctxj, "me": rng.gen_range(0..nval), "msgs": msgs}));
     }
 }
